@@ -26,21 +26,22 @@ import (
 func init() { vf.Register(&vf.Property{ID: "C06", Run: runC06, Replay: replayC06}) }
 
 type c06Case struct {
-	Base  c05Case  `json:"base"`            // the valid message (mode indep or goat)
-	Mut   string   `json:"mut"`             // subst-text | subst-bytes | trunc | extend | swap | b64 | hdr | key | none
-	Seg   string   `json:"seg,omitempty"`   // protected | encrypted_key | iv | ciphertext | tag | aad
-	Pos   int      `json:"pos,omitempty"`   // position (taken modulo the length)
-	Val   int      `json:"val,omitempty"`   // substituted value / amount
-	Param string   `json:"param,omitempty"` // header parameter for hdr edits
-	Where string   `json:"where,omitempty"` // protected | unprotected | recipient
-	Op    string   `json:"op,omitempty"`    // set | del | move
-	Seed2 uint64   `json:"seed2,omitempty"` // second message / wrong key
-	Prim  string   `json:"prim,omitempty"`  // primitive-level case
-	Comp  bool     `json:"comp,omitempty"`  // compression stream: Base is a valid zip=DEF message with a large plaintext; no mutation
-	Reuse bool     `json:"reuse,omitempty"` // the caller reuses the buffer it parsed from (Base is a mode-"reuse" case, c05_reuse.go)
-	Calls int      `json:"calls,omitempty"` // primitive history: number of calls on ONE algorithm object with reused buffers
-	Side  string   `json:"side,omitempty"`  // history case: parsed | sender
-	Ops   []string `json:"ops,omitempty"`   // history case: operations applied to ONE Message object
+	Base  c05Case  `json:"base"`                // the valid message (mode indep or goat)
+	Mut   string   `json:"mut"`                 // subst-text | subst-bytes | trunc | extend | swap | b64 | hdr | key | none
+	Seg   string   `json:"seg,omitempty"`       // protected | encrypted_key | iv | ciphertext | tag | aad
+	Pos   int      `json:"pos,omitempty"`       // position (taken modulo the length)
+	Val   int      `json:"val,omitempty"`       // substituted value / amount
+	Param string   `json:"param,omitempty"`     // header parameter for hdr edits
+	Where string   `json:"where,omitempty"`     // protected | unprotected | recipient
+	Op    string   `json:"op,omitempty"`        // set | del | move
+	Seed2 uint64   `json:"seed2,omitempty"`     // second message / wrong key
+	Prim  string   `json:"prim,omitempty"`      // primitive-level case
+	Trans bool     `json:"transcode,omitempty"` // transcoding stream (Base is a mode-"transcode" case, c05_transcode.go)
+	Comp  bool     `json:"comp,omitempty"`      // compression stream: Base is a valid zip=DEF message with a large plaintext; no mutation
+	Reuse bool     `json:"reuse,omitempty"`     // the caller reuses the buffer it parsed from (Base is a mode-"reuse" case, c05_reuse.go)
+	Calls int      `json:"calls,omitempty"`     // primitive history: number of calls on ONE algorithm object with reused buffers
+	Side  string   `json:"side,omitempty"`      // history case: parsed | sender
+	Ops   []string `json:"ops,omitempty"`       // history case: operations applied to ONE Message object
 }
 
 // c06Msg is a message taken apart so that a single part can be edited and everything else is
@@ -450,6 +451,10 @@ func applyMutation(cs c06Case, m *c06Msg, t int, r *vf.Rand, other *c06Msg, othe
 }
 
 func execC06(c *vf.Ctx, d *vf.Driver, cs c06Case) {
+	if cs.Trans {
+		execTranscode(c, d, cs.Base, "c06")
+		return
+	}
 	if cs.Comp {
 		execC06Comp(c, d, cs)
 		return
@@ -1478,6 +1483,12 @@ func runC06(c *vf.Ctx) {
 				}
 				execC06(c, d, c06Case{Base: base, Mut: "none"})
 				execC06(c, d, c06Case{Base: base, Mut: "place", Op: op, Val: r.Intn(1 << 16), Seed2: r.U64()})
+			}
+		}
+		// transcoding stream: parse, re-serialise, parse, … — decryption must keep yielding the plaintext that was encrypted
+		for i := 0; i < c.Budget(2, 12); i++ {
+			for _, chain := range c05Chains {
+				execC06(c, d, c06Case{Trans: true, Base: genTranscode(r, chain)})
 			}
 		}
 		// reuse stream: parse from a sub-slice of a read buffer, the caller reuses the buffer, then Decrypt / Compact / MarshalJSON
